@@ -289,7 +289,11 @@ Inductive out :=
 | OSProgRet (req : id) (ok : bool)
 | ODone
 | OCloseRet (o : nat) (already : bool)
-| OPeerClosed.
+| OPeerClosed
+| OSetMode (ok : bool).                         (* SetCallCancelMode returns (nil / an error) *)
+
+(* SetCallCancelMode(""): the default; one of the three modes; anything else: refused *)
+Inductive mode_req := MRDefault | MRSet (m : cancel_mode) | MRInvalid.
 
 Inductive label :=
 | Tick (t : N)
@@ -308,7 +312,8 @@ Inductive label :=
 | ChunkErr (o : nat)
 | CloseStart (o : nat)
 | CloseTimer
-| TransportEnd.
+| TransportEnd
+| SetMode (r : mode_req).       (* the application calls SetCallCancelMode *)
 
 (* ------------------------------------------------------------------ *)
 (* State                                                               *)
@@ -378,6 +383,7 @@ Definition init (c : config) : state :=
      s_invs := []; s_last_recv := 0; s_closer := None; s_chunkers := [] |}.
 
 (* functional record update helpers *)
+Definition set_mode s m := {| s_cfg := {| cfg_rt := cfg_rt (s_cfg s); cfg_mode := m; cfg_ppt := cfg_ppt (s_cfg s); cfg_progcall := cfg_progcall (s_cfg s) |}; s_now := s_now s; s_connected := s_connected s; s_closed := s_closed s; s_peer_closed := s_peer_closed s; s_next := s_next s; s_busy := s_busy s; s_awaiting := s_awaiting s; s_finishing := s_finishing s; s_ehandlers := s_ehandlers s; s_topic_sub := s_topic_sub s; s_ihandlers := s_ihandlers s; s_proc_reg := s_proc_reg s; s_invs := s_invs s; s_last_recv := s_last_recv s; s_closer := s_closer s; s_chunkers := s_chunkers s |}.
 Definition set_now s v := {| s_cfg := s_cfg s; s_now := v; s_connected := s_connected s; s_closed := s_closed s; s_peer_closed := s_peer_closed s; s_next := s_next s; s_busy := s_busy s; s_awaiting := s_awaiting s; s_finishing := s_finishing s; s_ehandlers := s_ehandlers s; s_topic_sub := s_topic_sub s; s_ihandlers := s_ihandlers s; s_proc_reg := s_proc_reg s; s_invs := s_invs s; s_last_recv := s_last_recv s; s_closer := s_closer s; s_chunkers := s_chunkers s |}.
 Definition set_connected s v := {| s_cfg := s_cfg s; s_now := s_now s; s_connected := v; s_closed := s_closed s; s_peer_closed := s_peer_closed s; s_next := s_next s; s_busy := s_busy s; s_awaiting := s_awaiting s; s_finishing := s_finishing s; s_ehandlers := s_ehandlers s; s_topic_sub := s_topic_sub s; s_ihandlers := s_ihandlers s; s_proc_reg := s_proc_reg s; s_invs := s_invs s; s_last_recv := s_last_recv s; s_closer := s_closer s; s_chunkers := s_chunkers s |}.
 Definition set_closed s v := {| s_cfg := s_cfg s; s_now := s_now s; s_connected := s_connected s; s_closed := v; s_peer_closed := s_peer_closed s; s_next := s_next s; s_busy := s_busy s; s_awaiting := s_awaiting s; s_finishing := s_finishing s; s_ehandlers := s_ehandlers s; s_topic_sub := s_topic_sub s; s_ihandlers := s_ihandlers s; s_proc_reg := s_proc_reg s; s_invs := s_invs s; s_last_recv := s_last_recv s; s_closer := s_closer s; s_chunkers := s_chunkers s |}.
@@ -923,6 +929,13 @@ Definition step (U : unpackers) (s : state) (l : label) : outcome :=
   | CloseStart o => step_close_start s o
   | CloseTimer => step_close_timer s
   | TransportEnd => if s_connected s then let '(s1, outs) := disconnect s in Ok s1 outs else Invalid
+  | SetMode r =>
+      (* the LAST accepted setting decides the mode of a later CANCEL; "" is killnowait *)
+      match r with
+      | MRDefault => Ok (set_mode s MKillNoWait) [OSetMode true]
+      | MRSet m => Ok (set_mode s m) [OSetMode true]
+      | MRInvalid => Ok s [OSetMode false]
+      end
   end.
 
 (* ------------------------------------------------------------------ *)
